@@ -102,7 +102,8 @@ class File:
             raise ModelGap('binary read of a text file')
         rb = symnp._prod(atom) * dt.itemsize
         need = nrows * rb
-        if len(atom) > 0 and order != 'C':
+        if len(atom) > 0 and order != 'C' and symnp._prod(atom) > 1:
+            # column-major interpretation of row-major bytes (identical when all trailing extents are 1)
             return Seq.of(('forder', symnp._segs_key(self.bin)), nrows)
         # same bytes, same interpretation -> same rows (Seq objects are immutable)
         key = (id(self.bin), dt.name, dt.gt, tuple(atom), id(nrows) if is_symbolic(nrows) else ('c', nrows))
